@@ -222,7 +222,7 @@ def main(argv=None):
     xcheck = {}
     if tier == "thorough" and not only:
         from .xcheck import run_crosshair, recheck_queries
-        xh_res, xh_viol = run_crosshair(prop)
+        xh_res, xh_viol = run_crosshair(prop, per_condition_timeout=150)
         xcheck["crosshair"] = xh_res
         for fn, kwargs in xh_viol:
             rec = {"tag": prop + ".crosshair", "inputs": {}, "info": {"function": fn, "args": kwargs},
